@@ -9,6 +9,7 @@ import (
 	"fmt"
 	"os"
 	"strings"
+	"unsafe"
 
 	"verifharness/internal/hx"
 	"verifharness/internal/prng"
@@ -128,6 +129,18 @@ func observeItem(o *xbobs.Obs, s *hx.Sink, id uint64, it Item, rooms []int, fill
 		d := xbobs.Decode(it.K, src, newBuf)
 		o.Mark("Unmarshal(bytes++tail) newBuf=%v", newBuf)
 		o.AddDecoded(it.K, d)
+		if d.Status == 1 && newBuf && it.K == "bytes" && len(d.Data) == 0 && cap(d.Data) > 0 {
+			// an empty result with capacity: the first append of the caller writes there
+			full := src[:cap(src)]
+			if len(full) > 0 {
+				base := uintptr(unsafe.Pointer(unsafe.SliceData(full)))
+				p := uintptr(unsafe.Pointer(unsafe.SliceData(d.Data)))
+				if p >= base && p < base+uintptr(len(full)) {
+					s.DirectViolation(id, "newBuf=true: the decoded (empty) slice has its capacity inside the source buffer: an append to it overwrites the source",
+						map[string]any{"kind": it.K, "cap": cap(d.Data)})
+				}
+			}
+		}
 		if d.Status == 1 && xbobs.IsBytesKind(it.K) && len(d.Data) > 0 {
 			// independence from the source: overwrite the whole source array and re-read the result
 			before := append([]byte{}, d.Data...)
